@@ -55,7 +55,16 @@ RULE = (
     "+hh:mm[:ss] offsets (reference: the components, cross-checked with this Python's fromisoformat; refused texts are "
     "dropped), and hand-made SQLite databases with DATETIME / TIMESTAMP / TIMESTAMPTZ / TIMESTAMP WITH TIME ZONE columns "
     "holding UNIX seconds (0, 0.0, -0.0, +-1, +-0.5, 2**31+-1, 2**32, year-1 / year-9999 limits, numeric text) and ISO text: "
-    "expected = the instant of what a plain sqlite3 connection shows as stored (36 / 720 such files per run)."
+    "expected = the instant of what a plain sqlite3 connection shows as stored (36 / 720 such files per run).  Round 7: "
+    "SQLite schema evolution (a type gains datetime fields after its table exists: one writer, database reopened once / "
+    "twice; a value from a column added later must be an aware timestamp of the field type with the written wall clock and "
+    "offset) and grouped records whose members carry different instants / offsets under shared names (ts, ts2, _generated) "
+    "in all four formats: what is stored is the flat view (first member prevails), computed from the inputs; a format that "
+    "refuses grouped records (SQLite, Avro on the pinned code) must store nothing.  Round 8: every environment worker also "
+    "reports format(ts, '%Y-%m-%dT%H'), f-string and str.format renderings with strftime specs and the files an "
+    "archive:// writer creates (with the records placed in each) for 16 records whose _generated crosses hour and day "
+    "boundaries: all must equal the baseline environment's; and the per-timestamp expansion (iter_timestamped_records) of "
+    "records with an OWN field named ts in any position: the record expanded for field X carries X's wall clock and offset."
 )
 ASSUMPTIONS = [
     "sub-second UTC offsets are outside the generated class (offsets are whole seconds, |offset| < 24 h)",
@@ -72,7 +81,7 @@ ASSUMPTIONS = [
     "a falsy `_generated` argument as 'not given' and stores the current time; ordinary timestamp fields do get epoch 0",
 ]
 SHARDS = {"quick": 8, "thorough": 16}
-BUDGET_S = {"quick": 150, "thorough": 1800}
+BUDGET_S = {"quick": 150, "thorough": 3000}
 
 FORMATS = ("stream", "json", "sqlite", "avro")
 PROC_TZ = (None, "Asia/Tokyo", "America/St_Johns")
@@ -161,6 +170,28 @@ def generate(ctx):
                 if ctx.mine(idx + 4):
                     yield {"k": kind, "tz": tz, "s": subseed("c13", ctx.seed, kind, tz, rep), "deep": not ctx.quick}
                 idx += 1
+    # SQLite schema evolution (a type gains timestamp fields later) and grouped records with different instants in shared names
+    idx = 0
+    for rep in range(ctx.scale(4, 80)):
+        for mode in ("one-writer", "reopen", "reopen-twice"):
+            for tz in PROC_TZ:
+                if ctx.mine(idx + 5):
+                    yield {"k": "evolve", "mode": mode, "tz": tz, "s": subseed("c13", ctx.seed, "evolve", mode, tz, rep), "deep": not ctx.quick}
+                idx += 1
+    idx = 0
+    for rep in range(ctx.scale(6, 120)):
+        for fmt in FORMATS:
+            for tz in PROC_TZ:
+                if ctx.mine(idx + 6):
+                    yield {"k": "grouped", "fmt": fmt, "tz": tz, "s": subseed("c13", ctx.seed, "grouped", fmt, tz, rep), "deep": not ctx.quick}
+                idx += 1
+    # per-timestamp expansion (iter_timestamped_records / rdump --multi-timestamp): a record with an OWN field named ts
+    idx = 0
+    for rep in range(ctx.scale(8, 200)):
+        for tz in PROC_TZ:
+            if ctx.mine(idx + 7):
+                yield {"k": "multits", "tz": tz, "s": subseed("c13", ctx.seed, "multits", tz, rep), "deep": not ctx.quick}
+            idx += 1
     # environment groups: every part re-runs the baseline environment (index 0) and compares the others against it
     groups = ctx.scale(4, 56)
     others = list(range(1, N_QUICK_ENVS if ctx.quick else len(ENVS)))
@@ -237,6 +268,12 @@ def execute(ctx, case):
         return execute_env(ctx, case)
     if case["k"] == "plain":
         return execute_plain(ctx, case)
+    if case["k"] == "multits":
+        return execute_multits(ctx, case)
+    if case["k"] == "evolve":
+        return execute_evolve(ctx, case)
+    if case["k"] == "grouped":
+        return execute_grouped(ctx, case)
     if case["k"] == "fjson":
         return execute_foreign_json(ctx, case)
     if case["k"] == "fsqlite":
@@ -554,6 +591,255 @@ def execute_plain(ctx, case):
                 pass
     ctx.nontrivial("plain", case["tz"], case["s"])
     ctx.sample({"case": case, "first_line": text[:200]}, kind="plain")
+
+
+# ---- per-timestamp expansion ------------------------------------------------------------------------------------
+def execute_multits(ctx, case):
+    """iter_timestamped_records: one output record per timestamp field, whose `ts` carries THAT field's instant and
+    offset and whose `ts_description` names it - also when the record has an own field literally named ts that is not
+    its first timestamp field.  The other timestamp fields stay what they were."""
+    from flow.record import RecordDescriptor, iter_timestamped_records
+
+    ft = _ft()
+    _set_tz(case["tz"])
+    rng = random.Random(case["s"])
+    ctx.ev()
+    names = ["a", "ts", "b", "c"][: rng.randint(2, 4)]
+    rng.shuffle(names)
+    if names[0] == "ts" and rng.random() < 0.8:
+        names.append(names.pop(0))  # mostly: the own ts field is NOT the first timestamp field
+    fields = []
+    for n in names:
+        fields.append(("datetime", n))
+        if rng.random() < 0.4:
+            fields.append(("varint", "v_" + n))
+    specs = {n: sp for n, sp in zip(names, model.make_specs(rng, len(names), case.get("deep", False)))}
+    D = RecordDescriptor("verif/c13multi", fields)
+    try:
+        r = D.recordType(**{n: model.build(sp, ft) for n, sp in specs.items()})
+        refs = {n: check_field_obs(ctx, sp, model.observe_dt(getattr(r, n)), "field") for n, sp in specs.items()}
+        outs = list(iter_timestamped_records(r))
+    except Exception as e:  # noqa: BLE001
+        ctx.violation(None, "per-timestamp expansion of a valid record raised %s" % type(e).__name__, detail={"exception": repr(e)[:300], "fields": fields})
+        return
+    if any(v is None for v in refs.values()):
+        return
+    descs = [str(o.ts_description) for o in outs]
+    if sorted(descs) != sorted(names):
+        ctx.violation(None, "per-timestamp expansion does not yield one record per timestamp field", detail={"fields": names, "ts_description": descs})
+        return
+    for o in outs:
+        n = str(o.ts_description)
+        ctx.event("expanded_records_checked")
+        ctx.cell("multits", "own-ts-position=%d" % names.index("ts") if "ts" in names else "no-own-ts", "described=" + n)
+        check_read_obs(ctx, "expansion", refs[n], None if o.ts is None else model.observe_dt(o.ts), "ts of the record expanded for field %r" % n, specs[n])
+        for m in names:
+            if m != "ts" and hasattr(o, m):
+                v = getattr(o, m)
+                check_read_obs(ctx, "expansion", refs[m], None if v is None else model.observe_dt(v), "field kept by the per-timestamp expansion", specs[m])
+    ctx.nontrivial("multits", case["tz"], case["s"])
+    ctx.sample({"case": case, "fields": fields}, kind="multits")
+
+
+# ---- SQLite schema evolution; grouped records ------------------------------------------------------------------
+def execute_evolve(ctx, case):
+    """A record type GAINS timestamp fields after its table exists: base type first, then the same-name type extended with
+    datetime fields (twice), in one writer or after re-opening the database.  Every value read back from a column that
+    was added later must be an aware timestamp of the datetime field type with the written wall clock and offset."""
+    from flow.record import RecordDescriptor, RecordReader, RecordWriter
+
+    ft = _ft()
+    _set_tz(case["tz"])
+    rng = random.Random(case["s"])
+    ctx.ev()
+    specs = model.make_specs(rng, 9, case.get("deep", False))
+    name = "verif/evo%x" % (case["s"] & 0xFFFF)
+    stages = [
+        RecordDescriptor(name, [("varint", "i"), ("string", "s")]),
+        RecordDescriptor(name, [("varint", "i"), ("string", "s"), ("datetime", "ts"), ("datetime", "ts2")]),
+        RecordDescriptor(name, [("varint", "i"), ("string", "s"), ("datetime", "ts"), ("datetime", "ts2"), ("float", "f"), ("datetime", "ts3")]),
+    ]
+    path = os.path.join(ctx.state["tmp"], "ev%d.db" % ctx.evaluations)
+    uri = "sqlite://" + path
+    mode = case["mode"]
+    expected = {}  # i -> {field: (spec, ref)}
+    try:
+        try:
+            w = RecordWriter(uri)
+            i = 0
+            si = 0
+            for stage, d in enumerate(stages):
+                if stage and (mode == "reopen-twice" or (mode == "reopen" and stage == 1)):
+                    w.close()
+                    w = RecordWriter(uri)
+                    ctx.event("evolve_database_reopened")
+                for _ in range(2):
+                    kw = {"i": i, "s": "row%d" % i}
+                    exp = {}
+                    for t, fn in d.get_field_tuples():
+                        if t == "datetime":
+                            sp = specs[si % len(specs)]
+                            si += 1
+                            kw[fn] = model.build(sp, ft)
+                            exp[fn] = sp
+                        elif t == "float":
+                            kw[fn] = 1.5
+                    r = d.recordType(**kw)
+                    refs = {}
+                    for fn, sp in exp.items():
+                        refs[fn] = (sp, check_field_obs(ctx, sp, model.observe_dt(getattr(r, fn)), "field"))
+                    expected[i] = refs
+                    w.write(r)
+                    i += 1
+            w.flush()
+            w.close()
+            rd = RecordReader(uri)
+            got = list(rd)
+            rd.close()
+        except Exception as e:  # noqa: BLE001
+            ctx.violation(None, "sqlite schema evolution (%s) raised %s" % (mode, type(e).__name__), detail={"exception": repr(e)[:300]})
+            return
+        byi = {None if o.i is None else int(o.i): o for o in got}
+        if len(got) != len(expected) or set(byi) != set(expected):
+            ctx.violation(None, "sqlite schema evolution: rows written and rows read differ", detail={"written": sorted(expected), "read": sorted(byi, key=str)})
+            return
+        for i, refs in expected.items():
+            o = byi[i]
+            for fn in ("ts", "ts2", "ts3"):
+                v = getattr(o, fn, None)
+                if fn not in refs:
+                    if v is not None:
+                        ctx.violation(None, "sqlite schema evolution: a row written before the column existed holds a value", detail={"field": fn, "value": repr(v)[:80]})
+                    continue
+                sp, ref = refs[fn]
+                if ref is None:
+                    continue
+                ctx.event("evolved_column_values_checked")
+                ctx.event("stored_values_checked")
+                ctx.cell("evolve", mode, fn)
+                if not isinstance(v, _dt.datetime):
+                    ctx.violation(None, "sqlite: a timestamp in a column added later is not read back as a timestamp",
+                                  detail={"field": fn, "read_type": type(v).__name__, "read": repr(v)[:80], "written": ref, "mode": mode})
+                    continue
+                check_read_obs(ctx, "sqlite", ref, model.observe_dt(v), "column added later", sp)
+    finally:
+        try:
+            os.unlink(path)
+        except OSError:
+            pass
+    ctx.nontrivial("evolve", mode, case["tz"], case["s"])
+    ctx.sample({"case": case, "rows": len(expected)}, kind="evolve:" + mode)
+
+
+def execute_grouped(ctx, case):
+    """Grouped records whose members carry DIFFERENT instants / offsets under shared names (ts, _generated).  The flat
+    view (first member prevails) is what every format must store; a format that refuses grouped records stores nothing."""
+    from flow.record import GroupedRecord, RecordDescriptor, RecordReader, RecordWriter
+
+    ft = _ft()
+    fmt = case["fmt"]
+    _set_tz(case["tz"])
+    rng = random.Random(case["s"])
+    ctx.ev()
+    M1 = RecordDescriptor("verif/c13m1", [("datetime", "ts"), ("varint", "i")])
+    M2 = RecordDescriptor("verif/c13m2", [("varint", "j"), ("datetime", "ts"), ("datetime", "ts2")])
+    M3 = RecordDescriptor("verif/c13m3", [("datetime", "ts2"), ("datetime", "ts3"), ("datetime", "ts")])
+    ext = {"stream": "records", "json": "json", "sqlite": "db", "avro": "avro"}[fmt]
+    path = os.path.join(ctx.state["tmp"], "g%d.%s" % (ctx.evaluations, ext))
+    uri = {"sqlite": "sqlite://", "avro": "avro://"}.get(fmt, "") + path
+    groups = []
+    for gi in range(3):
+        specs = model.make_specs(rng, 9, case.get("deep", False))
+        for sp in specs[6:]:
+            if sp["form"].startswith("epoch") and not model.build(sp, ft):
+                sp.clear()
+                sp.update({"form": "epoch_int", "n": 1 + gi})
+        b = lambda k: model.build(specs[k], ft)  # noqa: E731
+        try:
+            members = [M1(ts=b(0), i=gi, _generated=b(6)), M2(j=gi, ts=b(1), ts2=b(2), _generated=b(7))]
+            if gi == 2:
+                members.append(M3(ts2=b(3), ts3=b(4), ts=b(5), _generated=b(8)))
+            if rng.random() < 0.3:
+                members.reverse()
+            g = GroupedRecord("verif/c13grp", members)
+        except Exception as e:  # noqa: BLE001
+            ctx.violation(None, "constructing a grouped record from valid timestamps raised %s" % type(e).__name__, detail={"exception": repr(e)[:300]})
+            continue
+        # the flat view, computed from the inputs: the first member that has the name prevails
+        spec_of = {}
+        for m, ks in zip(members, [{"verif/c13m1": {"ts": 0, "_generated": 6}, "verif/c13m2": {"ts": 1, "ts2": 2, "_generated": 7},
+                                    "verif/c13m3": {"ts2": 3, "ts3": 4, "ts": 5, "_generated": 8}}[m._desc.name] for m in members]):
+            for fn, k in ks.items():
+                spec_of.setdefault(fn, specs[k])
+        refs = {}
+        for fn, sp in spec_of.items():
+            refs[fn] = (sp, check_field_obs(ctx, sp, model.observe_dt(getattr(g, fn)), "flat view of a grouped record"))
+        groups.append((g, refs, [(m._desc.name, model.observe_dt(m.ts)) for m in members]))
+    if not groups:
+        return
+    try:
+        try:
+            w = RecordWriter(uri)
+        except Exception as e:  # noqa: BLE001
+            ctx.violation(None, "opening a %s writer raised %s" % (fmt, type(e).__name__), detail={})
+            return
+        stored = []
+        try:
+            for g, refs, mem in groups:
+                if fmt == "avro" and any(r is None or not model.utc_representable(r) for _, r in refs.values()):
+                    continue
+                try:
+                    w.write(g)
+                    stored.append((g, refs, mem))
+                    ctx.event("grouped_records_accepted:" + fmt)
+                except Exception as e:  # noqa: BLE001 - the format does not take grouped records
+                    ctx.event("grouped_records_refused:%s:%s" % (fmt, type(e).__name__))
+            w.flush()
+        finally:
+            try:
+                w.close()
+            except Exception as e:  # noqa: BLE001
+                ctx.event("grouped_close_raised:%s:%s" % (fmt, type(e).__name__))
+        if not stored:
+            ctx.event("grouped_cases_nothing_stored:" + fmt)
+            ctx.nontrivial("grouped-refused", fmt, case["tz"], case["s"])
+            return
+        try:
+            rd = RecordReader(uri)
+            got = list(rd)
+            rd.close()
+        except Exception as e:  # noqa: BLE001
+            ctx.violation(None, "reading grouped records back from %s raised %s" % (fmt, type(e).__name__), detail={"exception": repr(e)[:300]})
+            return
+        if len(got) != len(stored):
+            ctx.violation(None, "%s: grouped records written and records read differ in number" % fmt, detail={"written": len(stored), "read": len(got)})
+            return
+        for (g, refs, mem), o in zip(stored, got):
+            for fn, (sp, ref) in refs.items():
+                if ref is None:
+                    continue
+                try:
+                    v = getattr(o, fn)
+                except AttributeError:
+                    ctx.violation(None, "%s: a timestamp field of the grouped record's flat view is missing after the round trip" % fmt, detail={"field": fn})
+                    continue
+                ctx.event("grouped_timestamps_checked")
+                ctx.event("stored_values_checked")
+                ctx.cell("grouped", fmt, fn)
+                check_read_obs(ctx, fmt, ref, None if v is None else model.observe_dt(v), "%s of a grouped record (flat view: first member prevails)" % fn, sp)
+            members = getattr(o, "records", None)
+            if isinstance(members, list) and fmt == "stream":
+                got_mem = [(m._desc.name, None if m.ts is None else model.observe_dt(m.ts)) for m in members]
+                ctx.event("grouped_member_timestamps_checked", len(got_mem))
+                if got_mem != mem:
+                    ctx.violation(None, "stream: the members of a grouped record come back with other timestamps", detail={"written": mem, "read": got_mem})
+    finally:
+        try:
+            os.unlink(path)
+        except OSError:
+            pass
+    ctx.nontrivial("grouped", fmt, case["tz"], case["s"])
+    ctx.sample({"case": case, "groups": len(groups)}, kind="grouped:" + fmt)
 
 
 # ---- files of OTHER producers: hand-made flow.record JSON, hand-made SQLite databases ---------------------------
@@ -956,7 +1242,9 @@ def execute_env(ctx, case):
                 where = None
                 if isinstance(a, list) and isinstance(b, list):
                     where = next((k for k, (x, y) in enumerate(zip(a, b)) if x != y), None)
-                ctx.violation(None, "the result of comparing timestamps (%s) depends on the display / process timezone setting" % name,
+                what = ("where template-placed files are written" if name == "archive_files" else "strftime-style formatting of timestamps" if name.startswith("fmt_")
+                        else "the result of comparing timestamps")
+                ctx.violation(None, "%s (%s) depends on the display / process timezone setting" % (what, name),
                               detail={"env": ENVS[envidx], "comparison": name, "first_differing_index": where,
                                       "baseline": a[where] if where is not None else str(a)[:200], "env_value": b[where] if where is not None else str(b)[:200],
                                       "seed": case["s"], "n": case["n"]})
